@@ -136,6 +136,7 @@ type FnCtx struct {
 	factAlloc string
 	masks     map[string]string // term -> shift term s, for (2^s - 1)
 	pow2s     map[string]string // term -> s, for 2^s
+	verAlloc  map[string]string // heap-array version -> allocation mark when it was created
 	boxes     map[string]Val
 	nopanic   bool
 	sweep     bool // zero-annotation sweep mode: loops without invariants allowed
@@ -200,6 +201,7 @@ func (c *FnCtx) heapGet(st *State, name, sort string) string {
 		if strings.Contains(name, w) && !(c.sweep && strings.HasPrefix(name, "LK:")) {
 			// the array was havoced wholesale before it was first mentioned
 			v = c.sc.fresh(name, sort)
+			c.verAlloc[v] = st.alloc
 			break
 		}
 	}
@@ -214,6 +216,7 @@ func (c *FnCtx) heapSet(st *State, name, sort, term string) {
 	n := c.sc.fresh(name, sort)
 	c.sc.assert(sEq(n, term))
 	st.heap[name] = n
+	c.verAlloc[n] = st.alloc
 }
 
 // heapStore writes one object-level entry of a heap array and records the
@@ -227,6 +230,7 @@ func (c *FnCtx) heapStore(st *State, name, sort, ref, val string) {
 	n := c.sc.fresh(name, sort)
 	c.sc.assert(sEq(n, "(store "+old+" "+ref+" "+val+")"))
 	st.heap[name] = n
+	c.verAlloc[n] = st.alloc
 	c.deriv[n] = derivInfo{parents: []string{old}, refs: []string{ref}}
 }
 
@@ -242,6 +246,7 @@ func (c *FnCtx) heapHavoc(st *State, name, sort string) string {
 	c.heapGet(st, name, sort)
 	n := c.sc.fresh(name, sort)
 	st.heap[name] = n
+	c.verAlloc[n] = st.alloc
 	return n
 }
 
@@ -353,19 +358,50 @@ func (c *FnCtx) leafFact(st *State, term string, lf leaf) {
 				c.fact(f)
 			}
 		case KRef, KFunc:
-			c.fact(fmt.Sprintf("(and (<= 0 %s) (<= %s %s))", term, term, st.alloc))
+			c.fact(fmt.Sprintf("(and (<= 0 %s) (<= %s %s))", term, term, c.boundFor(st, term)))
 		case KStr:
 			c.fact(fmt.Sprintf("(<= 0 %s)", term))
 		}
 	case "arr":
-		c.fact(fmt.Sprintf("(and (<= 0 %s) (<= %s %s))", term, term, st.alloc))
+		c.fact(fmt.Sprintf("(and (<= 0 %s) (<= %s %s))", term, term, c.boundFor(st, term)))
 	case "off", "tag":
 		c.fact(fmt.Sprintf("(<= 0 %s)", term))
 	case "pay":
-		c.fact(fmt.Sprintf("(<= %s %s)", term, st.alloc))
+		c.fact(fmt.Sprintf("(<= %s %s)", term, c.boundFor(st, term)))
 	case "len":
 		c.fact(fmt.Sprintf("(<= 0 %s)", term))
 	}
+}
+
+// boundFor gives the allocation mark that bounds a reference read from the heap: every entry of
+// a heap-array version refers to an object that existed when that version was created (the
+// mark only grows, and a version is created by a store of an existing reference, or by a havoc
+// after the callee's or loop's allocations were accounted for). Unknown terms get the current mark.
+func (c *FnCtx) boundFor(st *State, term string) string {
+	t := term
+	for i := 0; i < 2 && strings.HasPrefix(t, "(select "); i++ {
+		t = t[len("(select "):]
+	}
+	if t == term {
+		return st.alloc
+	}
+	var symb string
+	if strings.HasPrefix(t, "|") {
+		if j := strings.Index(t[1:], "|"); j >= 0 {
+			symb = t[:j+2]
+		}
+	} else if j := strings.IndexAny(t, " )"); j > 0 {
+		symb = t[:j]
+	}
+	if strings.HasSuffix(symb, "!0") || strings.HasSuffix(symb, "!0|") {
+		if _, isHeap := c.sc.declared[symb]; isHeap && c.top != nil && c.top.entrySt != nil {
+			return c.top.entrySt.alloc
+		}
+	}
+	if a, ok := c.verAlloc[symb]; ok {
+		return a
+	}
+	return st.alloc
 }
 
 // sliceFacts asserts len <= cap <= 2^62 for every slice inside a value read from the heap.
